@@ -45,3 +45,10 @@ Print Assumptions checked_compare_covers.
 Theorem checked_rejects_alteration_is_refuted : ~ checked_rejects_alteration.
 Proof. exact checked_rejects_alteration_refuted. Qed.
 Print Assumptions checked_rejects_alteration_is_refuted.
+Theorem checked_rejects_on_hash_mismatch : forall hstep c sh m v t1 m1 v1 okc m2,
+  sh_checked sh = true ->
+  ebc m v (sh_size sh) = Ok (t1, m1, v1) -> t1 <> 0%Z ->
+  validate_checksum hstep m1 v1 t1 (sh_size sh) = Ok (okc, m2) -> okc = false ->
+  exists st, deserialize hstep c sh m v = Ok (0%Z, st).
+Proof. exact checked_rejects_hash_mismatch. Qed.
+Print Assumptions checked_rejects_on_hash_mismatch.
